@@ -291,6 +291,9 @@ func (n *normalizer) exprInline(call *ast.CallExpr, file *ast.File) (string, boo
 		if o == nil || assigned[o] || !n.pureArg(arg) {
 			return false
 		}
+		if n.hasRealCall(arg) && n.useCount(ref.fd, o) > 1 {
+			return false
+		}
 		for _, nm := range identsOf(arg) {
 			if declared[nm] {
 				return false
